@@ -41,7 +41,7 @@ def kwOK (kw : List Name) : Bool :=
   kw.all (fun k => !endsCounter k && k.head? != some '?') && !kw.contains (objectName ++ ['_'])
 
 def allPddlKeywords (T : Tables) : List Name :=
-  T.pddlGeneral ++ T.pddlPlus ++ T.pddl3 ++ T.pddlTemporal ++ T.pddlContingent
+  T.pddlGeneral ++ T.pddlPlus ++ T.pddl3 ++ T.pddlTemporal ++ T.pddlContingent ++ T.pddlHddl
 
 /-- side conditions on the PDDL tables: a name that passes the start test keeps its first character, which is
     a letter; the substitution only lets PDDL characters through; the letters put in front are lower-case
